@@ -390,6 +390,98 @@ fn oracle(log: &[Obs], cup: bool, stored_poll: Option<u64>, bad_url: bool) -> V 
     Ok(())
 }
 
+/// The retry clauses on an arbitrary log (histories with restarts, schedules with control
+/// requests): per check at most three update-check requests, a further attempt exactly when the
+/// previous one failed retryably, fewer than three were made and no poll interval was in force (the
+/// interval in force is the one last announced / handed to the policy), one session per check, a
+/// fresh request id for every request of the log, event reports and pings never repeated.
+pub fn attempts_in_log(log: &[Obs], cup: bool) -> V {
+    let answers: BTreeMap<usize, &HttpAns> = log.iter().filter_map(|o| if let Obs::Resp(i, a) = o { Some((*i, a)) } else { None }).collect();
+    let mut seen_ids: Vec<usize> = vec![];
+    let mut poll_in_force = false;
+    let mut check: Vec<&WireReq> = vec![]; // update-check attempts of the check in progress
+    let mut in_check = false;
+    let mut bodies: Vec<Vec<u8>> = vec![];
+    for o in log {
+        match o {
+            Obs::Note(n) if n == "RESTART" => {
+                in_check = false;
+                check.clear();
+            }
+            Obs::ComputeNext { state, .. } | Obs::CheckAllowed { state, .. } => poll_in_force = state.poll.is_some(),
+            Obs::Ev(Ev::Proto(p)) => poll_in_force = p.poll.is_some(),
+            Obs::Ev(Ev::State(State::CheckingForUpdates(_))) => {
+                in_check = true;
+                check.clear();
+            }
+            Obs::Ev(Ev::Result(_)) => {
+                // the last attempt must not have called for another one
+                if let Some(last) = check.last() {
+                    if let Some(a) = answers.get(&last.idx) {
+                        let retryable = match a {
+                            HttpAns::Transport | HttpAns::Timeout => true,
+                            HttpAns::User => false,
+                            HttpAns::Resp(s) => !is_forged(cup, s) && !(200..300).contains(&s.status),
+                        };
+                        if retryable && check.len() < 3 && !poll_in_force {
+                            return bad(format!("no attempt {} although attempt {} was {} (poll interval in force: false)", check.len() + 1, check.len(), describe(a, cup)), "");
+                        }
+                    }
+                }
+                in_check = false;
+            }
+            Obs::Req(r) => {
+                match r.request_id {
+                    None => return bad("request without requestid", format!("req#{}", r.idx)),
+                    Some(i) => {
+                        if seen_ids.contains(&i) {
+                            return bad("request id reused", format!("req#{} reuses <guid#{i}>", r.idx));
+                        }
+                        seen_ids.push(i);
+                    }
+                }
+                if r.kind == ReqKind::UpdateCheck {
+                    if !in_check {
+                        return bad("update-check request outside an announced check", format!("req#{}", r.idx));
+                    }
+                    if let Some(prev) = check.last() {
+                        let a = answers.get(&prev.idx).ok_or(("attempt made before the previous one was answered".to_string(), String::new()))?;
+                        let retryable = match a {
+                            HttpAns::Transport | HttpAns::Timeout => true,
+                            HttpAns::User => false,
+                            HttpAns::Resp(s) => !is_forged(cup, s) && !(200..300).contains(&s.status),
+                        };
+                        if !retryable || poll_in_force {
+                            return bad(
+                                format!("attempt {} made although attempt {} was {} (poll interval in force: {poll_in_force})", check.len() + 1, check.len(), describe(a, cup)),
+                                "",
+                            );
+                        }
+                        if prev.session != r.session || r.session.is_none() {
+                            return bad("retry changes the session id", "");
+                        }
+                    }
+                    check.push(r);
+                    if check.len() > 3 {
+                        return bad("more than three update-check requests", "");
+                    }
+                } else {
+                    // an event report or a ping is never sent twice (same body apart from the request id)
+                    let mut j = r.json.clone();
+                    j["request"]["requestid"] = json!(null);
+                    let b = serde_json::to_vec(&j).unwrap();
+                    if r.kind == ReqKind::EventReport && bodies.contains(&b) {
+                        return bad("event report sent twice", format!("req#{}", r.idx));
+                    }
+                    bodies.push(b);
+                }
+            }
+            _ => {}
+        }
+    }
+    Ok(())
+}
+
 fn describe(a: &HttpAns, cup: bool) -> String {
     match a {
         HttpAns::Resp(s) => {
@@ -493,6 +585,19 @@ fn parts(tier: Tier) -> Vec<PartDef> {
                    "jitter_draws_per_wait": tier.pick(json!([500, 0, "2^64-1"]), json!([500, 0, 1, 499, 999, 1000, "2^63", "2^64-1"])),
                    "report_delivery": ["ok", "transport", "HTTP 500", "unsigned (cup)"], "bad_service_url": [false, true], "exploration": "full product"}),
             move |ctx| run_uc(ctx, tier),
+        ),
+        PartDef::new(
+            "retries-in-histories",
+            Cfg::new("C06/retries-in-histories"),
+            json!({"driver": "the C08 history harness: histories of checks (15 classes incl. retries, failures with and without an answer, answers dictating an interval), pings, end of wait and restarts, with and without CUP", "history_length": format!("0..{}", tier.pick(3, 4)),
+                   "oracle": "the retry clauses on the whole log: <= 3 attempts per check, a further attempt exactly when called for and no interval is in force, one session per check, fresh request ids over the whole history, no report sent twice", "exploration": "full product"}),
+            move |ctx| crate::props::c08::run_judged_by(ctx, tier.pick(3, 4), false, &|log, cup, bad_url| if bad_url { Ok(()) } else { attempts_in_log(log, cup) }),
+        ),
+        PartDef::new(
+            "retries-under-control-requests",
+            Cfg::new("C06/retries-under-control-requests").dev(tier.pick(0, 1)).free(&["clients", "options", "inject", "policy.check"]),
+            json!({"driver": "the C11 back-off harness: the first attempt of every check fails in transit, the back-off timer is a blocking point, two control requests injected at every step", "oracle": "as retries-in-histories"}),
+            move |ctx| crate::props::c11::run_backoff_judged_by(ctx, tier, &|log| attempts_in_log(log, false)),
         ),
         PartDef::new(
             "ping-once",
